@@ -88,6 +88,8 @@ enum Stop {
     ResumeNext,
     ResumeTo(String),
     ReturnTo(String),
+    /// RESUME label for an error raised inside a procedure: every active procedure is abandoned, control continues at the module-level label
+    Abandon(String),
 }
 
 type R<T> = Result<T, Stop>;
@@ -634,6 +636,13 @@ impl<'a> Machine<'a> {
         match r {
             Ok(()) | Err(Stop::ExitProc) => {}
             Err(Stop::Goto(_)) => panic!("refsem: GOTO escaped a procedure"),
+            Err(Stop::Abandon(l)) => {
+                // no write-back of by-reference arguments, no result; STATIC variables keep what they hold
+                if pr.is_static {
+                    self.statics.insert(p, frame.cells.clone());
+                }
+                return Err(if self.frames.len() == 1 { Stop::Goto(l) } else { Stop::Abandon(l) });
+            }
             Err(other) => return Err(other),
         }
         if pr.is_static {
@@ -830,7 +839,10 @@ impl<'a> Machine<'a> {
                         }
                         Err(Stop::ResumeTo(l)) => {
                             if in_proc {
-                                return undet("RESUME label for an error raised inside a procedure");
+                                // the label is at module level: the active procedures are abandoned
+                                self.err_code = 0;
+                                self.feat("resume-label-abandons-procedures");
+                                return Err(Stop::Abandon(l));
                             }
                             // RESUME label: the handler ends, control continues at the label
                             self.err_code = 0;
@@ -1312,7 +1324,7 @@ pub fn run(prog: &Program, budget: u64) -> Outcome {
         Err(Stop::Goto(l)) => panic!("refsem: GOTO to unknown label {}", l),
         Err(Stop::Return) => panic!("refsem: stray RETURN flow"),
         Err(Stop::ExitProc) => panic!("refsem: EXIT outside procedure"),
-        Err(Stop::ResumeSame) | Err(Stop::ResumeNext) | Err(Stop::ResumeTo(_)) | Err(Stop::ReturnTo(_)) => panic!("refsem: stray RESUME / RETURN flow"),
+        Err(Stop::ResumeSame) | Err(Stop::ResumeNext) | Err(Stop::ResumeTo(_)) | Err(Stop::ReturnTo(_)) | Err(Stop::Abandon(_)) => panic!("refsem: stray RESUME / RETURN flow"),
     };
     let mut globals = BTreeMap::new();
     for (i, v) in prog.vars.iter().enumerate() {
